@@ -313,6 +313,10 @@ func scriptMain(path string) {
 		if line == "" || strings.HasPrefix(line, "#") {
 			continue
 		}
+		if line == "@views" {
+			withViews = true
+			continue
+		}
 		if strings.HasPrefix(line, "---") {
 			db.Close()
 			db = openDB()
